@@ -41,6 +41,8 @@ type e4Config struct {
 	PingDelayMs int `json:"pingDelayMs,omitempty"`
 	// OnErrorCalls: the OnError callback reads the client's statistics and current BaseClient (an application logging them)
 	OnErrorCalls bool `json:"onErrorCalls,omitempty"`
+	// StateCalls: the application's ConnState callback looks at the client (Err, Done, Stats) from inside the callback
+	StateCalls bool `json:"stateCalls,omitempty"`
 	// AppPingOnSilence: as soon as a peer goes silent the application itself calls Ping without a deadline (a health probe)
 	AppPingOnSilence bool `json:"appPingOnSilence,omitempty"`
 	// KeepAliveS: the keep-alive value requested in CONNECT (WithKeepAlive), seconds
@@ -485,6 +487,19 @@ func e4RunBody(c e4Case, started chan<- *e4Env) (res *e4Result) {
 		}
 	})
 	defer vHookUnregister(rc)
+	if c.Cfg.StateCalls {
+		d.stateCalls = func(bc *BaseClient) {
+			_ = bc.Err()
+			if ch := bc.Done(); ch != nil {
+				select {
+				case <-ch:
+				default:
+				}
+			}
+			_ = rc.Stats()
+			_ = rc.Client()
+		}
+	}
 	d.onState = func(conn int, st ConnState, err error) {
 		if st == StateActive {
 			atomic.AddInt64(&e.active, 1)
@@ -1105,6 +1120,7 @@ func e4GenConfig(rt *rapid.T) e4Config {
 		// DirectlyPublishQoS0: QoS0 messages bypass the queue (C03 forces the default mode, which is what it speaks of)
 		DirectQoS0:   rapid.IntRange(0, 3).Draw(rt, "directQoS0") == 0,
 		OnErrorCalls: rapid.IntRange(0, 2).Draw(rt, "onErrorCalls") == 0,
+		StateCalls:   rapid.IntRange(0, 2).Draw(rt, "stateCalls") == 0,
 	}
 }
 
